@@ -196,3 +196,39 @@ package json
 // verif:func ParseExpression
 //@ nosafety
 //@ ensures whole: scannedOrg == org(src) && scannedLen == len(src)
+
+// ---- JSON bodies: partial processing (unit U10c, C04) ----
+// verif:unit U10c props=C04
+// The remainder of partial processing is a view of the same JSON value that hides everything the
+// caller had already hidden plus every property this step returned; a returned attribute was not
+// hidden before and is hidden afterwards (so a later step cannot return it again).
+// verif:func (*body).collectDeepAttrs
+//@ trusted
+//@ assigns nothing
+// verif:func (*body).unpackBlock
+//@ trusted
+// (the blocks pointer designates the Blocks field of the content being built)
+//@ assigns allof(hcl.BodyContent.Blocks)
+// verif:func (*body).MissingItemRange
+//@ trusted
+//@ pure
+// verif:func (node).Range
+//@ trusted
+//@ pure
+// verif:func (node).StartRange
+//@ trusted
+//@ pure
+// verif:func (*objectAttr).Range
+//@ nosafety
+//@ pure
+// verif:func (*body).PartialContent
+//@ nosafety
+//@ requires schema != nil
+//@ ensures kind: typeis(ret1, ptr(body)) && unbox(ret1, ptr(body)) != nil && fresh(unbox(ret1, ptr(body))) && unbox(ret1, ptr(body)).val == b.val
+//@ ensures hiddenGrow: forall k string :: { has(b.hiddenAttrs, k) } has(b.hiddenAttrs, k) ==> has(unbox(ret1, ptr(body)).hiddenAttrs, k)
+//@ ensures returnedHidden: ret0 != nil && (forall k string :: { has(ret0.Attributes, k) } has(ret0.Attributes, k) ==> !has(b.hiddenAttrs, k) && has(unbox(ret1, ptr(body)).hiddenAttrs, k))
+//@ loop 1 invariant usedNames != nil && fresh(usedNames) && (forall k string :: { visited(k) } visited(k) ==> has(usedNames, k))
+//@ loop 2 invariant forall k string :: { has(attrSchemas, k) } has(attrSchemas, k) ==> attrSchemas[k].Name == k
+//@ loop 3 invariant forall k string :: { has(attrSchemas, k) } has(attrSchemas, k) ==> attrSchemas[k].Name == k
+//@ loop 4 invariant (forall k string :: { has(attrSchemas, k) } has(attrSchemas, k) ==> attrSchemas[k].Name == k) && usedNames != nil && fresh(usedNames) && content != nil && fresh(content) && content.Attributes != nil && fresh(content.Attributes) && (forall k string :: { has(b.hiddenAttrs, k) } has(b.hiddenAttrs, k) ==> has(usedNames, k)) && (forall k string :: { has(content.Attributes, k) } has(content.Attributes, k) ==> !has(b.hiddenAttrs, k) && has(usedNames, k))
+//@ loop 5 invariant usedNames != nil && fresh(usedNames) && content != nil && fresh(content) && content.Attributes != nil && fresh(content.Attributes) && (forall k string :: { has(b.hiddenAttrs, k) } has(b.hiddenAttrs, k) ==> has(usedNames, k)) && (forall k string :: { has(content.Attributes, k) } has(content.Attributes, k) ==> !has(b.hiddenAttrs, k) && has(usedNames, k))
